@@ -337,6 +337,9 @@ func init() {
 		{4, func(g *gen, t int, c *cont) Op { return mk("method", "remove", t, g.member(c)) }},
 		{2, func(g *gen, t int, c *cont) Op { return mk("method", "reverse", t) }},
 		{3, func(g *gen, t int, c *cont) Op { return mk("method", "sort", t) }},
+		{3, func(g *gen, t int, c *cont) Op {
+			return mk("fn", mon.Pick(g.r, []string{"sorted_by_type", "sorted_by_type", "sorted_keep"}), t)
+		}},
 		{6, func(g *gen, t int, c *cont) Op { return g.callback(t, c) }},
 	}...)
 	mapOps = append(append([]wop{}, common...), []wop{
